@@ -216,9 +216,10 @@ func main() {
 		}
 	}
 
-	// RoundRobin: chunk sizes (incl. < 1), partition lists, start counters incl. the uint32 wrap
+	// RoundRobin: chunk sizes (incl. < 1), partition lists, starting points incl. just before 2^32, 2^63 and 2^64 calls
 	chunks := []int{-3, 0, 1, 2, 3, 5, 12, 64}
-	starts := []uint32{0, 1, 7, 1 << 16, (1 << 32) - 1, (1 << 32) - 2, (1 << 32) - 5, (1 << 32) - 13}
+	starts := []uint64{0, 1, 7, 1 << 16, (1 << 32) - 1, (1 << 32) - 2, (1 << 32) - 5, (1 << 32) - 13, (1 << 32) + 3, 1 << 40,
+		(1 << 63) - 3, (1 << 64) - 1, (1 << 64) - 9}
 	nrr := 60
 	if thorough {
 		nrr = 1500
@@ -238,7 +239,7 @@ func main() {
 		}
 		k := 1 + r.Intn(40)
 		rr := &kafka.RoundRobin{ChunkSize: ch}
-		kafka.VerifSetRoundRobinCounter(rr, st)
+		kafka.VerifSetRoundRobinCalls(rr, st, len(ps))
 		emit(fmt.Sprintf("rr %d %d %s %d", ch, st, ints(ps), k), observe(k, ps, false, func() int { return rr.Balance(kafka.Message{}, ps...) }))
 	}
 
